@@ -118,6 +118,11 @@ class ConsoleVersionDecoder(
         version_length = buffer[1]
         version_start = 2
         version_end = version_start + version_length
+        if version_end > len(buffer):
+            raise comms.DecodeError(
+                f"Version length ({version_length}) exceeds the data received "
+                f"({len(buffer) - version_start})"
+            )
         versions = buffer[version_start:version_end].decode(
             encoding=encoding.STRING_ENCODING
         )
